@@ -403,6 +403,13 @@ def strategy():
         "unsolicited": st.lists(st.integers(0, len(UNSOLICITED) - 1), min_size=1, max_size=2),
         "error": st.integers(0, 4), "okline": st.booleans(),
         "alarm_after": st.integers(0, 4)})
+    # a query whose answer is preceded by an unsolicited line carrying the same
+    # letters (M114 after a Grbl status with MPos, M105 after a temperature
+    # auto-report): the reading must be the one of the query's own report
+    conflict = st.tuples(st.sampled_from([(3, 2), (4, 1), (3, 1), (4, 2)]), st.integers(0, 3)).map(
+        lambda t: {"s": t[0][0], "hold": t[1], "unsolicited": [t[0][1]]})
+    from vf.hist import weighted
+    stmt = weighted((7, stmt), (1, conflict))
     return st.fixed_dictionaries({
         "transport": st.sampled_from(["serial", "serial", "socket"]),
         "greeting": st.sampled_from(["start", None, "Grbl 1.1"]),
